@@ -10,6 +10,7 @@ import DocsModel.Model.Migrations
 import DocsModel.Model.Ranger
 import DocsModel.Model.Replica
 import DocsModel.Model.Events
+import DocsModel.Model.Actor
 /-!
 Line-protocol driver: one output line per input line. The Rust harness pipes the same operation
 lines it applied to the real crate and compares the two output streams.
@@ -62,6 +63,10 @@ structure World where
   snaps : List (String × List Entry) := []
   /-- replicas with subscribers (C12) and the cursor into their applied log -/
   evs : List (Nat × Events.State × Nat) := []
+  /-- store actors (C14) -/
+  actors : List (Nat × Actor.AState) := []
+  /-- specification bookkeeping for C14: handles per (actor, document) = opens − releases -/
+  handleCounts : List ((Nat × Bytes) × Nat) := []
 
 namespace World
 
@@ -204,6 +209,47 @@ def showReplicaResult : Replica.InsertResult → String
   | .failed .badSignature => "err:bad-signature"
   | .failed .tooFarInTheFuture => "err:future"
   | .failed .invalidEmptyEntry => "err:invalid-empty"
+
+def World.getActor (w : World) (sid : Nat) : Option Actor.AState := w.actors.lookup sid
+def World.setActor (w : World) (sid : Nat) (a : Actor.AState) : World :=
+  { w with actors := (sid, a) :: w.actors.filter (·.1 != sid) }
+
+def showReply : Actor.Reply → String
+  | .ok => "ok"
+  | .okBool b => "ok " ++ showBool b
+  | .inserted n => "inserted " ++ toString n
+  | .notInserted => "notinserted"
+  | .entry (some e) => "some " ++ showEntry e
+  | .entry none => "none"
+  | .entries es => showEntries es
+  | .message => "ok"
+  | .state sync subs handles => "state " ++ showBool sync ++ " " ++ toString subs ++ " " ++ toString handles
+  | .secret raw => "secret " ++ raw.toHex
+  | .errNotOpen => "err:not-open"
+  | .errNotFound => "err:not-found"
+  | .errSyncDisabled => "err:sync-disabled"
+  | .errReadOnly => "err:read-only"
+  | .errNotClosed => "err:not-closed"
+  | .errValidation => "err:validation"
+
+/-- parse an actor action: `<kind> args…` -/
+def parseAction? : List String → Option Actor.Action
+  | ["open", ns, sync, sub] => do pure (.openR (← Bytes.ofHex ns) (← parseBool? sync) (← parseBool? sub))
+  | ["close", ns] => do pure (.close (← Bytes.ofHex ns))
+  | ["setsync", ns, b] => do pure (.setSync (← Bytes.ofHex ns) (← parseBool? b))
+  | ["sub", ns] => do pure (.subscribe (← Bytes.ofHex ns))
+  | ["unsub", ns] => do pure (.unsubscribe (← Bytes.ofHex ns))
+  | ["local", tok] => do let e ← parseEntry? tok; pure (.insertLocal e.ns e)
+  | ["remote", ns, now, tok] => do pure (.insertRemote (← Bytes.ofHex ns) (← parseNat? now) (← parseEntry? tok))
+  | ["getexact", ns, au, key, incl] => do
+    pure (.getExact (← Bytes.ofHex ns) (← Bytes.ofHex au) (← Bytes.ofHex key) (← parseBool? incl))
+  | ["getmany", ns] => do pure (.getMany (← Bytes.ofHex ns))
+  | ["syncinit", ns] => do pure (.syncInitial (← Bytes.ofHex ns))
+  | ["state", ns] => do pure (.getState (← Bytes.ofHex ns))
+  | ["drop", ns] => do pure (.dropReplica (← Bytes.ofHex ns))
+  | ["import", ns, kind, raw] => do pure (.importNamespace (← Bytes.ofHex ns) (← parseNat? kind) (← Bytes.ofHex raw))
+  | ["export", ns] => do pure (.exportSecret (← Bytes.ofHex ns))
+  | _ => none
 
 def showInsertResult : Tables.InsertResult → String
   | .inserted n => "inserted " ++ toString n
@@ -429,6 +475,52 @@ def step (w : World) (line : String) : World × String :=
       | none => (w, "no-store")
     | _, _, _, _, _, _ => (w, "bad-op")
   -- snapshots and the join specification of a session
+  -- ---- the store actor (Actor.lean) ----
+  | ["anew", sid] =>
+    match parseNat? sid with
+    | some sid => (w.setActor sid {}, "ok")
+    | none => (w, "bad-op")
+  | "act" :: sid :: rest =>
+    -- `localq` / `remoteq`: the same requests through calls that do not report the removal count
+    let quiet := rest.head? == some "localq" || rest.head? == some "remoteq"
+    let rest := match rest with
+      | "localq" :: r => "local" :: r
+      | "remoteq" :: r => "remote" :: r
+      | r => r
+    let showReply := fun (r : Actor.Reply) => match quiet, r with
+      | true, .inserted _ => "inserted"
+      | _, r => showReply r
+    match parseNat? sid, parseAction? rest with
+    | some sid, some a =>
+      match w.getActor sid with
+      | some st =>
+        let (st', r) := Actor.step st a
+        let bump := fun (w : World) (ns : Bytes) (f : Nat → Nat) =>
+          let c := (w.handleCounts.lookup (sid, ns)).getD 0
+          { w with handleCounts := ((sid, ns), f c) :: w.handleCounts.filter (·.1 != (sid, ns)) }
+        let w := match a, r with
+          | .openR ns _ _, .ok => bump w ns (· + 1)
+          | .close ns, _ => bump w ns (· - 1)
+          | .dropReplica ns, _ => bump w ns (· - 1)
+          | _, _ => w
+        (w.setActor sid st', showReply r)
+      | none => (w, "no-store")
+    | _, _ => (w, "bad-op")
+  -- the store handed back by shutdown: every record of every document
+  | ["adump", sid] =>
+    match parseNat? sid with
+    | some sid =>
+      match w.getActor sid with
+      | some st => (w, showEntries st.t.records)
+      | none => (w, "no-store")
+    | none => (w, "bad-op")
+  -- specification of the handle count: opens minus releases, from the history of requests
+  | ["shandles", sid, ns] =>
+    match parseNat? sid, Bytes.ofHex ns with
+    | some sid, some ns =>
+      let c := (w.handleCounts.lookup (sid, ns)).getD 0
+      (w, if c > 0 then "usable handles=" ++ toString c else "closed")
+    | _, _ => (w, "bad-op")
   -- ---- events and subscribers (Events.lean) ----
   | ["enew", sid, ns, kind, raw] =>
     match parseNat? sid, Bytes.ofHex ns, parseNat? kind, Bytes.ofHex raw with
